@@ -953,7 +953,7 @@ def _analyze_zipfile_for_import(zipfile, project, schema):
 
         """
         # Must use forward slashes, not os.path.sep.
-        fn_statepoint = path + "/" + Job.FN_STATE_POINT
+        fn_statepoint = path + "/" + Job.FN_STATE_POINT if path else Job.FN_STATE_POINT
         if fn_statepoint in names:
             return json.loads(zipfile.read(fn_statepoint).decode())
 
@@ -976,7 +976,7 @@ def _analyze_zipfile_for_import(zipfile, project, schema):
     for name in sorted(dirs):
         cont = False
         for skip in skip_subdirs:
-            if name == skip or name.startswith(skip + "/"):
+            if name == skip or name.startswith(skip + "/") or not skip:
                 cont = True
                 break
         if cont:
@@ -997,7 +997,7 @@ def _analyze_zipfile_for_import(zipfile, project, schema):
         )
 
     for src, job in mappings.items():
-        _names = [name for name in names if name.startswith(src + "/")]
+        _names = [name for name in names if name.startswith(src + "/") or not src]
         copy_executor = _CopyFromZipFileExecutor(zipfile, src, job, _names)
         yield src, copy_executor
 
@@ -1046,7 +1046,7 @@ def _tarfile_path_join(path, fn):
 
     """
     path = path.rstrip("/")
-    return path + "/" + fn
+    return path + "/" + fn if path else fn
 
 
 def _analyze_tarfile_for_import(tarfile, project, schema, tmpdir):
